@@ -14,6 +14,8 @@ pub mod ds;
 pub mod gc;
 /// Hooks for the Immix line/block bookkeeping and the page resources.
 pub mod immix;
+/// Stage table and constants of the work-packet scheduler.
+pub mod sched;
 /// Hooks for heap layout (Map32, chunk-state mmapper, SFT / VM map lookups).
 pub mod layout;
 /// Hooks for side / header metadata.
